@@ -660,3 +660,70 @@ mod step_tests {
         }
     }
 }
+
+/// An end point `l` of a stated range, approached from INSIDE (`dir` = +1: the range lies
+/// above `l`, -1: below): the high word is exactly `l` and the low word points inward (any
+/// low-word class, or zero), or the high word is `l` moved inward by 1..3 ulps with any low word.
+/// Values a few ulps away are covered by the pivots; this class is about the end point itself.
+pub fn end_point(ctx: &mut Ctx, l: f64, dir: i32) -> Dd {
+    debug_assert!(l.is_finite() && l != 0.0);
+    ctx.label("arg:range-end-point");
+    if ctx.chance(2, 3) {
+        let lo = low_word(ctx, l).abs();
+        let lo = if ctx.chance(1, 6) { 0.0 } else if dir > 0 { lo } else { -lo };
+        let d = Dd::new(l, lo);
+        if d.valid() {
+            return d;
+        }
+        return Dd::new(l, 0.0);
+    }
+    let j = ctx.range(1, 3);
+    let hi = step(l, if dir > 0 { j } else { -j });
+    dd_at(ctx, hi)
+}
+
+/// the two ends of a symmetric range |x| <= l
+pub fn end_point_sym(ctx: &mut Ctx, l: f64) -> Dd {
+    if ctx.flag() {
+        end_point(ctx, l, -1)
+    } else {
+        end_point(ctx, -l, 1)
+    }
+}
+
+/// Integer-valued operand at an r-th root of an integer-type limit: floor((2^b)^(1/r)) + d
+/// (3037000499 = floor(sqrt(2^63)), 46340, 65535, 2097151 = floor(cbrt(2^63)), ...): where
+/// "compute it in integers when it fits" shortcuts change sides.  Returns (value, r).
+pub fn integer_root_boundary(ctx: &mut Ctx) -> (f64, i32) {
+    ctx.label("operand:integer-root-boundary");
+    let b = [15u32, 16, 31, 32, 53, 63, 64, 127, 128][ctx.below(9) as usize];
+    let r = [2i32, 2, 2, 3, 3, 4, 5][ctx.below(7) as usize];
+    // floor of the real root, exactly, by integer search on u128 (b <= 128, r >= 2 => root < 2^64)
+    let target: Option<u128> = if b == 128 { None } else { Some(1u128 << b) };
+    let fits = |v: u128| -> bool {
+        // v^r <= 2^b - 1 ?  (i.e. v^r < 2^b)
+        let mut acc: u128 = 1;
+        for _ in 0..r {
+            match acc.checked_mul(v) {
+                Some(t) => acc = t,
+                None => return false,
+            }
+        }
+        match target {
+            Some(t) => acc < t,
+            None => true,
+        }
+    };
+    let (mut lo, mut hi) = (1u128, 1u128 << 64);
+    while lo + 1 < hi {
+        let mid = (lo + hi) / 2;
+        if fits(mid) {
+            lo = mid;
+        } else {
+            hi = mid;
+        }
+    }
+    let d = ctx.range(-2, 2);
+    let v = (lo as i128 + d as i128).max(1) as f64;
+    (if ctx.flag() { -v } else { v }, r)
+}
